@@ -509,6 +509,15 @@ class _Pre:
                     return _op('add', [n.left, n.right], n)       # type-directed: str + str, else the base `+`
                 if isinstance(n.op, ast.Sub):
                     return _op('sub', [n.left, n.right], n)       # type-directed: set - set, else the base `-`
+                if isinstance(n.op, ast.Mult):
+                    return _op('mul', [n.left, n.right], n)       # type-directed: str * int, else the base `*`
+                return n
+
+            def visit_For(self, n):
+                self.generic_visit(n)
+                if isinstance(n.iter, ast.Name):
+                    # type-directed: iteration over a string = over its one-character strings; else the iterable itself
+                    n.iter = _op('iter', [n.iter], n.iter)
                 return n
 
             def visit_ListComp(self, n):
@@ -914,6 +923,20 @@ def translate_op(ex, node, expected):
                 e, _ = ex.expr(arg, pt)
                 terms.append(atom(e))
         return ex.partial('%s %s' % (sp['lean_name'], ' '.join(terms)), node), py2lean.parse_type(sp['result'])
+    if name == 'mul' and len(a) == 2:
+        ts = _types(ex, a)
+        if ts[0] == STR and ts[1] == INT:
+            l, _ = ex.expr(a[0], STR)
+            r, _ = ex.expr(a[1], INT)
+            return '(PyRtC14.repeatStr %s %s)' % (atom(l), atom(r)), STR
+        n = ast.copy_location(ast.BinOp(left=a[0], op=ast.Mult(), right=a[1]), node)
+        return ex._binop(n)
+    if name == 'iter' and len(a) == 1:
+        ts = _types(ex, a)
+        if ts[0] == STR:
+            e, _ = ex.expr(a[0], STR)
+            return '(PyRtC14.chars %s)' % atom(e), LSTR
+        return ex.expr(a[0], expected)
     if name == 'none_in_class' and len(a) == 2:
         e, _ = ex.expr(a[1], STR)
         runs = [tuple(int(x) for x in r.split(',')) for r in a[0].value.split(';')] if a[0].value else []
@@ -1199,3 +1222,16 @@ def reject_tests(verbose=True):
         if verbose:
             print('%-55s %s' % (label, 'REFUSED: ' + infos[0]['error'][:90] if infos[0].get('error') else 'TRANSLATED (!)'))
     return bad
+
+
+def selftest_pending(quick=True, seed=0):
+    """translator self-test of the functions that translate but are not tied yet (`srctie_specs.C14_PENDING`): the
+    same driver as the registered self-test, with the pending specs appended to C14's for the duration of the call"""
+    import srctie_specs
+    import py2lean_selftest
+    saved = srctie_specs.SPECS['C14']
+    srctie_specs.SPECS['C14'] = saved + srctie_specs.C14_PENDING
+    try:
+        return py2lean_selftest.run(['C14'], quick=quick, seed=seed, verbose=True)
+    finally:
+        srctie_specs.SPECS['C14'] = saved
